@@ -64,9 +64,10 @@ Theorem C14_print_idem :
 Proof. exact print_idem_bytes. Qed.
 Print Assumptions C14_print_idem.
 
-(* Text level, with the lexical layer as an explicit hypothesis (it is tied to the code by
-   correspondence, see docs/C14.md): if the lexer reads the printed bytes back as the printed
-   tokens and every numeral fits isize, the text-level parser returns the tree. *)
+(* Text level with the lexical step as an explicit hypothesis (no condition on identifiers): if the
+   lexer reads the printed bytes back as the printed tokens and every numeral fits isize, the
+   text-level parser returns the tree.  C14_lex_render below discharges the hypothesis for
+   well-formed identifiers outside the class F7. *)
 Theorem C14_text_partial :
   forall p : program,
   lex (display_program p) = Some (print_program p) ->
